@@ -1,7 +1,7 @@
 """Regenerated fact tables: /verif/extract reads /repo's sources, writes lean/WireV/Generated/Tables.lean."""
 import os
 
-from .common import V, BUILD, run
+from .common import V, BUILD, REPO, run
 
 
 def regenerate(rep=None):
@@ -11,7 +11,11 @@ def regenerate(rep=None):
         rc, out, err = run(["go", "build", "-o", exe, "."], cwd=V + "/extract")
         if rc != 0:
             raise RuntimeError("extract build failed: " + err)
-    rc, out, err = run([exe, "/repo", V + "/lean/WireV/Generated/Tables.lean"])
+    rc, out, err = run([exe, REPO, V + "/lean/WireV/Generated/Tables.lean"])
+    if rep is not None and rc == 0 and "extract:" in err:
+        # a group of tables could not be read off the sources: placeholders were written, and exactly the theorems over
+        # that group stop checking (reported as broken obligations of the properties that rest on them)
+        rep.coverage["tables_not_extracted"] = [l for l in err.split("\n") if l.startswith("extract:")][:6]
     if rc != 0 and rep is not None:
         rep.violation("extraction", {"what": "the fact extractor no longer recognises the shape of a function it reads "
                                              "(regenerated obligations cannot be stated)", "log": (out + err)[-1500:]}, no_input=True)
